@@ -287,9 +287,15 @@ class Env:
         self.kind = kind
         self.log = []          # callback log (do_action, finally_action, ...)
         self.counters = {}
+        self.hots = []         # every hot observable handed to the operator: their subscription records are compared
 
     def hot(self, *events):
-        return self.S.create_hot_observable(*events)
+        h = self.S.create_hot_observable(*events)
+        self.hots.append(h)
+        return h
+
+    def subscriptions(self):
+        return [[[x.subscribe, x.unsubscribe] for x in h.subscriptions] for h in self.hots]
 
     def timer(self, t):
         import reactivex
@@ -557,7 +563,7 @@ def run_form(form, name, method_fn, layout, kind, ints, G, S):
             E.S.start()
     except Exception as e:
         out.append(["raise-during-run", type(e).__name__, str(e)[:200]])
-    return {"out": out, "log": E.log, "result_type": type(res).__name__}
+    return {"out": out, "log": E.log, "result_type": type(res).__name__, "source_subscriptions": E.subscriptions()}
 
 
 def classify(name, method_fn, op_fn, layout):
@@ -664,7 +670,7 @@ def run(chk):
                                         "source": kind,
                                         "fluent_form": f"source.{name}(...)", "fluent_outcome": a,
                                         "piped_form": f"source.pipe(ops.{name}(...))", "piped_outcome": b,
-                                        "expected": "identical recorded notifications and callback logs",
+                                        "expected": "identical recorded notifications, callback logs and subscribe/unsubscribe instants on every source",
                                         "signatures": sig_notes.get(name)},
                                   size=len(layout[1]) + len(layout[2]) + layout[3])
                 elif "out" in a and len(a["out"]) > 1:
